@@ -1,7 +1,9 @@
-(* Extraction of the executable C14 models (ExtrOcamlBasic only; N/Z/positive/nat stay inductive). *)
+(* Extraction of the executable C14 models (ExtrOcamlBasic only; N/Z/positive/nat stay inductive).
+   Output goes to ocaml/gen/ (git-ignored, created by vlib.coq_make and tools/setup.py before any Coq build);
+   ocaml/C14/build.sh copies it to ocaml/C14/_build/ (git-ignored) and compiles it there. *)
 From Coq Require Import NArith ZArith List Extraction ExtrOcamlBasic.
 From C14 Require Import Indexed ArraySpec.
 Extraction Language OCaml.
 
-Extraction "../ocaml/C14/c14_model.ml" iobs sobs init_array_i init_plain_i init_a dump_i dump_a form_of i32_to_f64 canon
+Extraction "../ocaml/gen/c14_model.ml" iobs sobs init_array_i init_plain_i init_a dump_i dump_a form_of i32_to_f64 canon
   N.add N.mul N.of_nat Z.of_N Z.opp.
